@@ -106,6 +106,20 @@ Definition skipped (i : term) : bool := existsb (fun c => 900 <=? c) (cls_C07 i)
 
 Definition eqv_C07 (i m o : term) : bool := if skipped i then true else term_eqb m o.
 
-Definition spec_C07 (i o : term) : bool := if skipped i then true else spec_check uts i o.
+(* ---- decoding the implementation's observable for the specification checker ---- *)
+Definition report_of_term (t : term) : Z * list (string * Z * Z) :=
+  (gz (gn t 0), map (fun e => (gs (gn e 0), gz (gn e 1), gz (gn e 2))) (gl (gn t 1))).
+Definition observed_of (o : term) : option observed :=
+  if String.eqb (gs (gn o 0)) "ok" then
+    let d := gn o 1 in
+    Some {| o_types := map vt_of (gl (gn d 0));
+            o_nsamples := List.length (gl (gn d 4));
+            o_reports := map report_of_term (gl (gn o 2));
+            o_reports2 := map report_of_term (gl (gn o 3)) |}
+  else None.
+
+Definition spec_C07 (i o : term) : bool :=
+  if skipped i then true
+  else let '(db, nm) := in_flags i in spec_ok uts db nm (in_srcs i) (in_bases i) (observed_of o).
 
 Definition judge_C07 := judge_all run_C07 eqv_C07 spec_C07 cls_C07 0%Z.
